@@ -8,7 +8,7 @@ cd "$(dirname "$0")/.."
 . ./env.sh
 id=$1; diff=$(readlink -f "$2"); tier=${3:-quick}
 suf=mut$$; d=$PWD/.work/$suf; mkdir -p "$d/src" "$d/out"
-trap 'rm -rf "$d" .bin/*.'"$suf"'* .work/overlay.'"$suf"'.json' EXIT
+trap 'rm -rf "$d" .bin/*.'"$suf"'* .work/overlay.'"$suf"'.json .work/seams.'"$suf" EXIT
 files=$(git -C /repo apply --numstat "$diff" | cut -f3) || { echo "detect: patch does not apply to /repo"; exit 2; }
 for f in $files; do mkdir -p "$d/src/$(dirname "$f")"; [ -f "/repo/$f" ] && cp "/repo/$f" "$d/src/$f"; done
 patch -s -p1 -d "$d/src" < "$diff" || { echo "detect: patch failed"; exit 2; }
